@@ -6,6 +6,8 @@ NOTES = ("All checks are ./check <id> --tier quick|thorough (runner/vrunner.py).
          "spec/b3spec (anchored against a second Python model and the published vectors on every run).")
 
 ENGINES_DOC = [
+    {"name": "clib", "path": "engines/clib", "serves_properties": ["C06"],
+     "kind_free_text": "Rust harness + build.rs compiling /repo/c (assembly, C-intrinsics or portable-only flavour, -DBLAKE3_TESTING); explicit-state BFS over the real blake3_hasher through FFI"},
     {"name": "stock", "path": "engines/stock", "serves_properties": ["C04"],
      "kind_free_text": "Rust; a stock build of the crate with the hook guard OFF and upstream's no_* features, computing the cross-configuration ledger (validates the H1 hook)"},
     {"name": "b3sum", "path": "engines/b3sum", "serves_properties": ["C12", "C13"],
@@ -101,6 +103,13 @@ CHECKS["C04"] = {
     "technique": "the C01/C02/C03/C09 enumerations and state-space explorations re-run in every cell of the build-flavour x feature-set x forced-SIMD-level matrix, each vs the spec model, plus cross-build ledger equality",
     "text": "The one-shot enumeration (C01), the Hasher BFS (C02), the OutputReader BFS (C03) and the hazmat enumeration (C09) are run in three builds of the crate (quick: assembly+default features, prefer_intrinsics+all features, pure+no default features; thorough: all nine flavour x feature-set combinations), each at every SIMD level the CPU has (forced through the H1 hook), every result compared with the independent spec model. A fixed ledger of one-shot cases is additionally summed per level and must be identical across builds; in the thorough tier it must also equal the ledger of stock builds (hook guard off) restricted with upstream's own no_avx512/no_avx2/no_sse41/no_sse2 features, which validates the H1 hook itself.",
     "note": "Not reachable here: 32-bit x86, NEON, wasm, MSVC assembly. Trusted: b3spec, H1 hook (validated against stock no_* builds in the thorough tier).",
+}
+
+CHECKS["C06"] = {
+    "engine": "clib/hasher_bfs", "category": "model_checking", "design_ref": "DESIGN.md 3/C06",
+    "technique": "explicit-state BFS over the real C blake3_hasher (three C build flavours x every dispatch mask), merged on the live bytes of the public struct; spec oracle in every state",
+    "text": "The C library is built from /repo/c in three flavours (Unix assembly, C intrinsics, portable-only) and explored under every dispatch mask the CPU supports, set through upstream's own BLAKE3_TESTING seam g_cpu_features. From each of the four initialisers (five mode instances) a breadth-first search applies update over the fine and coarse alphabets and reset from every state, merging on the live bytes of the struct; in every state finalize/finalize_seek at 16 (seek, out_len) probes - out_len 0, partial first/last blocks, block counter 2^32 across all 16 xof_many lanes, the end of the 2^64-1 stream - are compared with the spec stream with canaries around the output, queries must leave every byte of the hasher unchanged, zero-length updates (NULL, dangling, valid pointer) must be no-ops, reset must equal a fresh hasher and the two derive-key initialisers must agree.",
+    "note": "Trusted: b3spec; the Rust mirror of the struct layout (checked against sizeof/offsetof at start). Equality with the Rust crate is by both equalling the spec on the same case space. Bounds as C02.",
 }
 
 NOT_APPLICABLE = {("C%02d" % i): PENDING for i in range(1, 19)}
